@@ -7,6 +7,12 @@ BASE_NOTE = ("Trusted: Coq 8.16.1 kernel (no native_compute; vm_compute only in 
              "(Print Assumptions parsed every run; theorems at R would add the 3 stdlib real axioms); ExtrOcamlBasic extraction with Z/Q/Qc kept as datatypes + a Zarith I/O driver; "
              "the Python correspondence harness and its tolerances; JAX/NumPy primitives are modelled by contracts (rfftn/irfftn = DFT half-spectrum, scan = fold, exp). ")
 CLAIMED = {
+ "C02": dict(text="Theorems over ANY field of characteristic 0 (so: real, imaginary, complex, arbitrarily stiff z != 0): every ETDRK coefficient integrand of the code equals the "
+                  "Cox-Matthews phi-function expression, each step_fourier stage program equals the ETD1/ETD2RK/ETD3RK/ETD4RK tableau applied to an arbitrary extensional nonlinear term, "
+                  "order 0 is the linear propagation, order dispatch, no .real truncation, half-shifted contour, stiff order conditions. The subject (Gen/ETDRK.v) is re-translated from "
+                  "/repo's etdrk/*.py by a fail-closed AST translator on every run and also run (extracted, exact Gaussian rationals) against the JAX coefficient arrays and step_fourier.",
+             note="Not proved: the quadrature error of the 16-point contour mean (incl. z=0) and the O(dt^p) convergence theorem; both are measured (phi-tableau oracle over a z cover to -1e9, dt-halving rates). jnp.exp trusted.",
+             technique="Rocq proof (field identities, stage-program equivalence) on an AST-translated model + exact correspondence", design="§4 C02"),
  "C14": dict(text="Theorems (unbounded in n, state type, stepper function, window length) about a hand-written Gallina model of rollout/repeat/stack_sub_trajectories/"
                   "RepeatedStepper; the model is tied to the code by exact correspondence (extracted model vs JAX on integer bookkeeping steppers) on every run, plus a naive-loop oracle on the real code.",
              note="Model of lax.scan/tree_map/dynamic_slice is a contract (fold/list cons/clamped slice); RepeatedStepper theorem assumes the rfftn.irfftn round trip on the reachable spectra (Nyquist-compatible states).",
